@@ -277,12 +277,18 @@ class PythonASTOptimizer(ast.NodeTransformer):
         """Eliminate dead code from except try bodies."""
         new_node = self.generic_visit(node)
         assert isinstance(new_node, ast.Try)
+        new_body = _filter_dead_code(new_node.body)
+        new_finalbody = _filter_dead_code(new_node.finalbody)
+        if not new_node.handlers and not new_finalbody:
+            # A `try` whose `finally` clause was optimized away entirely (and which has
+            # no handlers) is not valid Python; it is equivalent to its body.
+            return new_body  # type: ignore[return-value]
         return ast.copy_location(
             ast.Try(
-                body=_filter_dead_code(new_node.body),
+                body=new_body,
                 handlers=new_node.handlers,
                 orelse=_filter_dead_code(new_node.orelse),
-                finalbody=_filter_dead_code(new_node.finalbody),
+                finalbody=new_finalbody,
             ),
             new_node,
         )
